@@ -537,3 +537,13 @@ fn replay(_opts: &Opts, d: &Value, acc: &mut Acc) {
     }
     acc.inconclusive.push("C06 replay: case not found in the grid and no genome given".into());
 }
+
+/// libFuzzer entry: one generated case
+pub fn fuzz_case(genome: &[u8], acc: &mut Acc) -> Vec<Failure> {
+    let mut g = G::new(genome);
+    let c = gen_case(&mut g);
+    if !expressible(&c) {
+        return vec![];
+    }
+    check_case(&c, "fuzz", acc)
+}
